@@ -18,13 +18,21 @@ structure EKind where
 inductive TargetRes where
   | ret (o : Outcome Nat)
   | toGroup (rest : List Char)
+  | skip (rest : List Char)     -- clause for another kind: stay in `State::Target` with `rest`
+
+/-- `while let Some(x) = chars.pop() { if x == ',' { break; } }`: discard up to and including the
+    next `,` (or everything); the result is what is left in `chars` -/
+def skipClause : List Char → List Char
+  | [] => []
+  | x :: rest => if x = ',' then rest else skipClause rest
 
 /-- `State::Target` inner loop; the list starts with the current char `c`. -/
 def targetLoop (k : EKind) (mode : Nat) : List Char → TargetRes
   | [] => .ret (.err .invalidChmod)                       -- `_pop` on an empty vector
   | c :: rest =>
     if c ≠ 'd' ∧ c ≠ 'f' ∧ c ≠ 'a' ∧ c ≠ ':' then .ret (.err .invalidChmodTarget)
-    else if k.link ∨ (c = 'd' ∧ !k.dir) ∨ (c = 'f' ∧ !k.file) then .ret (.ok mode)
+    else if k.link then .ret (.ok mode)                   -- links are never altered
+    else if (c = 'd' ∧ !k.dir) ∨ (c = 'f' ∧ !k.file) then .skip (skipClause rest)
     else if c = ':' then .toGroup rest
     else targetLoop k mode rest
 
@@ -72,6 +80,7 @@ def symLoop (k : EKind) : Nat → Nat → List Char → Outcome Nat
   | f + 1, mode, cs =>
     match targetLoop k mode cs with
     | .ret o => o
+    | .skip rest => symLoop k f mode rest                 -- next clause (or `.ok mode` at the end)
     | .toGroup [] => .ok mode
     | .toGroup rest =>
       match groupLoop rest 0 with
